@@ -127,8 +127,22 @@ var ProfileC03 = &Profile{
 	},
 }
 
+// vaultGov: now and then governance executes a stablestake parameter proposal – written from the parameters as
+// they were at some earlier block of the history (see GenParamChangeFor).
+func vaultGov(h *History, g *G) []EnvAction {
+	if g.Int("vaultgov?", 0, 5) != 0 {
+		// still record the snapshot of this block so that later proposals can be stale
+		recordParamSnapshot(h, "stablestake")
+		return nil
+	}
+	if e := GenParamChangeFor(h, g, "stablestake"); e != nil {
+		return []EnvAction{*e}
+	}
+	return nil
+}
+
 var ProfileC06 = &Profile{
-	ID: "C06", Name: "lending", MinBlocks: 5, MaxBlocks: 40, MaxTxs: 5, Spec: specLending, Check: CheckC06,
+	ID: "C06", Name: "lending", MinBlocks: 5, MaxBlocks: 40, MaxTxs: 5, Spec: specLending, Check: CheckC06, PreBlock: vaultGov,
 	Weights: map[string]int{"stablestake.bond": 12, "stablestake.unbond": 8, "leveragelp.open": 14, "leveragelp.close": 10, "leveragelp.close_positions": 4,
 		"leveragelp.update_stop_loss": 2, "leveragelp.claim_rewards": 1, "oracle.feed_price": 8, "amm.swap_in": 4, "amm.join": 2, "amm.exit": 2, "masterchef.claim": 1},
 	Gaps: []time.Duration{time.Second, 5 * time.Second, 6 * time.Second, time.Hour + time.Second, 3 * time.Hour, 24*time.Hour + time.Second, 8 * 24 * time.Hour},
@@ -439,7 +453,7 @@ var ProfileC04 = &Profile{
 }
 
 var ProfileC07 = &Profile{
-	ID: "C07", Name: "vault-chain", MinBlocks: 5, MaxBlocks: 40, MaxTxs: 5, Spec: specLending, Check: CheckC07Chain,
+	ID: "C07", Name: "vault-chain", MinBlocks: 5, MaxBlocks: 40, MaxTxs: 5, Spec: specLending, Check: CheckC07Chain, PreBlock: vaultGov,
 	Weights: withWeights(ProfileC06.Weights, map[string]int{"stablestake.bond": 14, "stablestake.unbond": 12, "leveragelp.open": 16}),
 	Gaps:    ProfileC06.Gaps,
 	Rule:    "history in which the vault share value had a long fractional part while lenders bonded and unbonded and a loan was granted",
